@@ -187,8 +187,11 @@ func positions(e *vh.Env, n, exhaust int) []int {
 
 func TestC03(t *testing.T) {
 	e := vh.Load(t)
+	if strings.HasPrefix(filepath.Base(e.Out), "search") {
+		e.Tier = "quick" // the driver's search for a concrete failing input after a break: quick-sized, other seed
+	}
 	st := vh.NewStats("(a) ValidatingBlockstore.Get over a datastore corrupted behind its back: per block (sizes 0..4096, 7 CID forms: v0, v1 raw/dag-pb sha2-256, " +
-		"blake2b-256, sha2-512, sha2-256 truncated to 20 bytes, identity) every single-byte flip (exhaustive in position up to the tier's limit, strided above), every " +
+		"blake2b-256, sha2-512, sha2-256 truncated to 20 bytes, identity) every single-byte flip (exhaustive in position for blocks up to 40 bytes (quick) / 128 bytes (thorough), boundaries + stride above), every " +
 		"truncation length, extension by 1..3 bytes, a foreign block, absence, intact; (b) FileManager.Get and Filestore.Get of file references (std and mmap reader) after " +
 		"the file was overwritten at each offset, truncated to each length, extended, deleted, replaced by a directory; (c) URL references against an HTTP server answering " +
 		"with modified/truncated bodies and error codes. Digests in the cases come from crypto/sha256, crypto/sha512, x/crypto/blake2b. " +
@@ -202,7 +205,7 @@ func TestC03(t *testing.T) {
 	if !e.Thorough() {
 		sizes = []int{0, 1, 2, 32, 33, 100, 513, 4096}
 	}
-	exhaust := e.Pick(40, 512)
+	exhaust := e.Pick(40, 128)
 	mds := dssync.MutexWrap(ds.NewMapDatastore())
 	base := blockstore.NewBlockstore(mds)
 	vbs := &blockstore.ValidatingBlockstore{Blockstore: base}
@@ -247,9 +250,12 @@ func TestC03(t *testing.T) {
 		data := make([]byte, n)
 		e.Rng.Read(data)
 		var fs []form
-		if e.Thorough() || n <= 33 {
+		switch {
+		case n <= 33 || (e.Thorough() && n <= 64):
 			fs = forms
-		} else {
+		case e.Thorough():
+			fs = []form{forms[bi%len(forms)], forms[(bi+3)%len(forms)], forms[(bi+5)%len(forms)]}
+		default:
 			fs = []form{forms[bi%len(forms)], forms[(bi+3)%len(forms)]}
 		}
 		for _, f := range fs {
